@@ -94,6 +94,7 @@ func (l *Linter) lintBlockStatement(block *ast.BlockStatement, ctx *context.Cont
 		func() {
 			l.ignore.SetupStatement(include.GetMeta())
 			defer l.ignore.TeardownStatement(include.GetMeta())
+			defer l.ignore.restoreRange(l.ignore.saveRange())
 			for _, v := range l.resolveIncludeStatements([]ast.Statement{include}, ctx, false) {
 				lintStatement(v, ctx)
 			}
